@@ -57,10 +57,30 @@ def to_signed(v, bits):
 
 
 class Enc:
-    """Encoding policy. pad(kind, nbytes_min, maxbytes) -> pad_to."""
+    """Encoding policy. pad(kind, nbytes_min, maxbytes) -> pad_to. locals_rnd: if set, local declaration vectors are written in an
+    equivalent but non-canonical grouping (groups split, zero-count groups of arbitrary type inserted anywhere, also first)."""
 
-    def __init__(self, padfn=None):
+    def __init__(self, padfn=None, locals_rnd=None):
         self.padfn = padfn
+        self.locals_rnd = locals_rnd
+
+    def locals(self, groups):
+        r = self.locals_rnd
+        if r is None:
+            return list(groups)
+        out = []
+        types = ['i32', 'i64', 'f32', 'f64']
+        if r.random() < 0.5:
+            out.append((0, r.choice(types)))
+        for c, t in groups:
+            if c > 1 and r.random() < 0.4:
+                k = r.randint(1, c - 1)
+                out += [(k, t), (c - k, t)]
+            else:
+                out.append((c, t))
+            if r.random() < 0.3:
+                out.append((0, r.choice(types)))
+        return out
 
     def u32(self, v, kind='idx'):
         p = self.padfn(kind, 5) if self.padfn else 0
@@ -97,7 +117,7 @@ def rot_enc(k, rnd=None):
             return 0
         x = r.random()
         return 0 if x < 0.5 else (maxb if x > 0.85 else r.randint(0, maxb))
-    return Enc(padfn)
+    return Enc(padfn, locals_rnd=r)
 
 # ---------------------------------------------------------------- opcode table
 # name -> (prefix, code, immkind, params, results)
@@ -495,7 +515,7 @@ class Module:
                 if f.raw is not None:
                     b = f.raw
                 else:
-                    b = vec([enc.u32(c, 'localcount') + bytes([VT[t]]) for c, t in f.locals]) + enc_code(f.body, enc) + b'\x0b'
+                    b = vec([enc.u32(c, 'localcount') + bytes([VT[t]]) for c, t in enc.locals(f.locals)]) + enc_code(f.body, enc) + b'\x0b'
                 bodies.append(enc.u32(len(b), 'bodysize') + b)
             out += section(10, vec(bodies))
         customs_after(10)
